@@ -249,6 +249,22 @@ func runC17(c *Ctx) {
 			t1 = pc[1]
 			m1 = meaningOfPlain(t1, cfg)
 		}
+		if !pinned && r.Chance(1, 30) {
+			// a file that assembles to no instruction at all is a warrior too (its one task executes whatever its cell holds)
+			t1 = []string{";redcode\n;name nothing\n", "x equ 3\n;just a constant\nend\n", "\n\n", "for 0\nmov 0, 1\nrof\n"}[r.Intn(4)]
+			m1 = &asm.Meaning{}
+			c.Inc("warrior_files_without_instructions")
+		}
+		if !pinned && r.Chance(1, 30) {
+			// a long file: more than 1 MiB of remarks in front of (or behind) the code
+			pad := strings.Repeat("; "+strings.Repeat("remark ", 120)+"\n", 1300)
+			if r.Bool() {
+				t1 = pad + t1
+			} else {
+				t1 = t1 + "\n" + pad
+			}
+			c.Inc("warrior_files_above_1MiB")
+		}
 		f1 := filepath.Join(dir, fmt.Sprintf("w%d_1.red", idx))
 		os.WriteFile(f1, []byte(t1), 0o644)
 		defer os.Remove(f1)
@@ -260,6 +276,20 @@ func runC17(c *Ctx) {
 			if pinned {
 				t2 = pinnedCLI[idx][2]
 				m2 = meaningOfPlain(t2, cfg)
+			}
+			if !pinned && r.Chance(1, 30) {
+				t2 = []string{";redcode\n;name nothing\n", "x equ 3\n;just a constant\nend\n", "\n\n", "for 0\nmov 0, 1\nrof\n"}[r.Intn(4)]
+				m2 = &asm.Meaning{}
+				c.Inc("warrior_files_without_instructions")
+			}
+			if !pinned && r.Chance(1, 30) {
+				pad := strings.Repeat("; "+strings.Repeat("remark ", 120)+"\n", 1300)
+				if r.Bool() {
+					t2 = pad + t2
+				} else {
+					t2 = t2 + "\n" + pad
+				}
+				c.Inc("warrior_files_above_1MiB")
 			}
 			f2 := filepath.Join(dir, fmt.Sprintf("w%d_2.red", idx))
 			os.WriteFile(f2, []byte(t2), 0o644)
